@@ -32,7 +32,7 @@ def scopes(tier):
         elif name == "element_iv":
             S[name] = {"arity": [2], "lo": -1, "hi": 3}
         elif name == "lexicographic_leq":
-            S[name] = {"arity": [2] if q else [2, 4], "lo": 0, "hi": 2 if not q else 3}
+            S[name] = {"arity": [2, 4] if q else [2, 4, 6], "lo": 0, "hi": 2}
         elif name == "relation":
             S[name] = {"arity": [1, 2] if q else [1, 2, 3], "lo": 0, "hi": 2}
         elif name == "dummy":
